@@ -324,6 +324,15 @@ def run_case(case):
             if raw not in singles_:
                 for a in dls:
                     for b in dls:
+                        if a is not b and a["t_run"] <= b["t_run"] and a["data"] + b["data"] == raw \
+                                and a["tx"] != b["tx"] and raw not in {x for x in net.answers if x is not None}:
+                            # whenever they were handed to the protocol (a transport may hold data back while reading is
+                            # paused): the pieces answer DIFFERENT transmissions and the result is nobody's answer
+                            violations.append(viol(f"C07:mixed-transmissions:{fr}",
+                                                   f"{case['timing']}: result {raw.hex()} is a piece of the answer to "
+                                                   f"transmission {a['tx']} followed by a piece of the answer to "
+                                                   f"transmission {b['tx']}"))
+                            break
                         if a is not b and a["t_run"] <= b["t_run"] and a["data"] + b["data"] == raw:
                             crossed = [t["i"] for t in net.transmissions if a["t_run"] < t["t"] <= b["t_run"]]
                             if crossed:
